@@ -24,6 +24,9 @@ fn res_bytes(out: &mut Vec<u64>, r: Result<Vec<u8>, coap_lite::error::MessageErr
 pub enum Op {
     Ver(u8), Type(u8), Code(u64), Mid(u16), Token(Vec<u8>), Payload(Vec<u8>),
     Add(u16, Vec<u8>), Set(u16, Vec<Vec<u8>>), Clear(u16), ClearAll,
+    /// the typed convenience setters (content format by number, observe value) and a header replaced as a whole
+    /// (`p.header = Header::new()`) followed by set_token
+    SetCf(u64), SetObs(u32), ResetHeader(Vec<u8>),
 }
 impl Op {
     pub fn write(&self, o: &mut Vec<u64>) {
@@ -38,6 +41,9 @@ impl Op {
             Op::Set(k, vs) => { o.push(7); o.push(*k as u64); o.push(vs.len() as u64); for v in vs { wr_bytes(o, v); } }
             Op::Clear(k) => { o.push(8); o.push(*k as u64); }
             Op::ClearAll => o.push(9),
+            Op::SetCf(n) => { o.push(10); o.push(*n); }
+            Op::SetObs(n) => { o.push(11); o.push(*n as u64); }
+            Op::ResetHeader(t) => { o.push(12); wr_bytes(o, t); }
         }
     }
     pub fn apply(&self, p: &mut Packet) {
@@ -58,6 +64,9 @@ impl Op {
             Op::Set(k, vs) => p.set_option(CoapOption::from(*k), vs.iter().cloned().collect::<LinkedList<_>>()),
             Op::Clear(k) => p.clear_option(CoapOption::from(*k)),
             Op::ClearAll => p.clear_all_options(),
+            Op::SetCf(n) => p.set_content_format(std::convert::TryFrom::try_from(*n as usize).unwrap()),
+            Op::SetObs(n) => p.set_observe_value(*n),
+            Op::ResetHeader(t) => { p.header = coap_lite::Header::new(); p.set_token(t.clone()); }
         }
     }
 }
@@ -76,6 +85,9 @@ pub fn rd_op(c: &mut Cur) -> Op {
         7 => { let k = c.n() as u16; let n = c.n(); Op::Set(k, (0..n).map(|_| c.bytes()).collect()) }
         8 => Op::Clear(c.n() as u16),
         9 => Op::ClearAll,
+        10 => Op::SetCf(c.n()),
+        11 => Op::SetObs(c.n() as u32),
+        12 => Op::ResetHeader(c.bytes()),
         x => panic!("bad op {}", x),
     }
 }
@@ -165,7 +177,7 @@ fn emit_ops(pol: &[u64; 3], ops: &[Op], emit: &mut dyn FnMut(Vec<u64>)) {
 pub fn rand_ops(r: &mut Rng, maxlen: u64) -> Vec<Op> {
     let n = 1 + r.below(maxlen);
     let keys: [u16; 10] = [0, 1, 11, 12, 13, 14, 27, 258, 300, 65535];
-    (0..n).map(|_| match r.below(16) {
+    (0..n).map(|_| match r.below(19) {
         0 => Op::Ver(r.below(4) as u8),
         1 => Op::Type(r.below(4) as u8),
         // 512 + b: MessageClass::Reserved(b) even when b has a name (Reserved(0) is sent with its payload; it is not Empty)
@@ -176,6 +188,9 @@ pub fn rand_ops(r: &mut Rng, maxlen: u64) -> Vec<Op> {
         6..=10 => { let l = if r.chance(1, 6) { r.pick(&LENS) } else { r.below(5) as usize }; Op::Add(r.pick(&keys), r.bytes(l)) }
         11 | 12 => { let nv = r.below(4); Op::Set(r.pick(&keys), (0..nv).map(|_| { let l = r.below(4) as usize; r.bytes(l) }).collect()) }
         13 | 14 => Op::Clear(r.pick(&keys)),
+        16 => Op::SetCf(r.pick(&[0u64, 40, 41, 42, 50, 60, 110, 11542, 10001])),
+        17 => Op::SetObs(r.pick(&[0u32, 1, 5, 255, 256, 65535, 65536, 1 << 24, u32::MAX])),
+        18 => { let l = r.below(9) as usize; Op::ResetHeader(r.bytes(l)) }
         _ => if r.chance(1, 4) { Op::ClearAll } else { Op::Clear(r.pick(&keys)) },
     }).collect()
 }
@@ -235,6 +250,32 @@ pub fn gen10(tier: &str, r: &mut Rng, emit: &mut dyn FnMut(Vec<u64>)) {
         idx.swap(i - 1, j);
         idx[i..].reverse();
     }
+    // E'. the header replaced as a whole after a token was set, then a token of the same / another length; the other
+    // header setters before and after
+    for l0 in 0..9usize { for l1 in [l0, (l0 + 1) % 9, 0] { for extra in 0..3 {
+        let mut ops = vec![Op::Token(r.bytes(l0)), Op::Type(1), Op::Mid(0x1234)];
+        if extra == 1 { ops.push(Op::Add(11, b"p".to_vec())); }
+        ops.push(Op::ResetHeader(r.bytes(l1)));
+        if extra == 2 { ops.push(Op::Code(0x45)); ops.push(Op::Payload(vec![1])); }
+        emit_ops(&pol, &ops, emit);
+    } } }
+    // E''. the typed setters over an option that already holds the same number (padded, repeated) or another one
+    for n in [0u64, 40, 50, 60, 11542] { for pad in 0..3usize { for rep in [false, true] { for same in [true, false] {
+        let mut first = vec![0u8; pad]; let m = if same { n } else { 41 };
+        if m > 255 { first.push((m >> 8) as u8); } if m > 0 { first.push(m as u8); }
+        let mut ops = vec![Op::Add(12, first)];
+        if rep { ops.push(Op::Add(12, vec![60])); }
+        ops.push(Op::SetCf(n));
+        emit_ops(&pol, &ops, emit);
+    } } } }
+    for n in [0u32, 1, 7, 256, 65536] { for pad in 0..3usize { for rep in [false, true] { for same in [true, false] {
+        let mut first = vec![0u8; pad]; let m = if same { n } else { n + 1 };
+        first.extend(m.to_be_bytes().iter().skip_while(|b| **b == 0));
+        let mut ops = vec![Op::Add(6, first)];
+        if rep { ops.push(Op::Add(6, vec![9])); }
+        ops.push(Op::SetObs(n));
+        emit_ops(&pol, &ops, emit);
+    } } } }
     // F. random call sequences
     let nrand = if thorough { 400_000 } else { 20_000 };
     for _ in 0..nrand {
@@ -373,6 +414,18 @@ pub fn gen20(tier: &str, r: &mut Rng, emit: &mut dyn FnMut(Vec<u64>)) {
         b.pop();
         emit_bytes(&pol, &b, emit);
     }
+    // 9. MANY options (the count, not the size, is what grows): around every power of two of the count up to 2^12 and
+    // around the default message size, empty and one-byte values, alone, with a payload, and with a malformed tail
+    let mut counts: Vec<usize> = vec![100, 255, 256, 257, 1279, 1280, 1281, 1285];
+    if thorough { for k in [7u32, 9, 10, 11, 12] { for d in [-1i64, 0, 1] { counts.push(((1i64 << k) + d) as usize); } } counts.push(5000); }
+    for &n in counts.iter() { for hb in [0x00u8, 0x10, 0x01] {
+        let mut b = vec![0x40u8, 0x01, 0, 1];
+        for i in 0..n { b.push(hb); if hb & 15 == 1 { b.push(i as u8); } }
+        emit_bytes(&pol, &b, emit);
+        for tail in [&[0xFFu8, 0x61][..], &[0xFF][..], &[0xF0][..], &[0x0D][..], &[0x02, 0x01][..], &[0xE0, 0xFF, 0xFF, 0x10][..]] {
+            let mut c = b.clone(); c.extend(tail); emit_bytes(&pol, &c, emit);
+        }
+    } }
 }
 
 fn desc_of(p: &Packet) -> PktDesc {
@@ -508,6 +561,34 @@ pub fn gen40(tier: &str, r: &mut Rng, emit: &mut dyn FnMut(Vec<u64>)) {
         p.add_option(CoapOption::from(if vl % 2 == 0 { 11 } else { 300 }), r.bytes(vl));
         if r.chance(1, 2) { p.add_option(CoapOption::from(12), vec![]); }
         one(&p, mode, 200_000, emit);
+    } }
+    // an over-long value next to other options, in every relative position (option number, byte-wise order of the
+    // values, length order): the refusal must not depend on which value a scan looks at first or last
+    for vl in [65805usize, 70000] { for fill in [0x00u8, 0x61, 0xFF] { for (n_long, n_other) in [(11u16, 12u16), (12, 11), (11, 11), (300, 3)] {
+        for other in [&b""[..], &b"sensors"[..], &[0u8][..], &[0xFFu8, 0xFF][..]] { for mode in [1u64, 2] {
+            let mut p = Packet::new();
+            if n_long == n_other { p.add_option(CoapOption::from(n_other), other.to_vec()); }
+            p.add_option(CoapOption::from(n_long), vec![fill; vl]);
+            if n_long != n_other { p.add_option(CoapOption::from(n_other), other.to_vec()); }
+            one(&p, mode, 200_000, emit);
+        } }
+    } } }
+    // the encoded OPTIONS alone (not the message) landing on every size around the default limit, for every option
+    // header size (1..5 bytes), alone and after a short first option; refused or not, the buffer must hold them
+    for (num, first) in [(1u16, false), (11, false), (35, false), (300, false), (35, true), (300, true)] { for d in -6i64..=9 {
+        for hdr in [2usize, 3, 4, 5] {
+            // header size of the long option: 1 + delta extension (0/1/2) + length extension (2, value >= 269)
+            let dext = if num < 13 { 0 } else if num < 269 { 1 } else { 2 };
+            if 1 + dext + 2 != hdr { continue; }
+            let firstlen = if first { 2 } else { 0 };   // option 1 with a one-byte value
+            let vl = mx as i64 + d - hdr as i64 - firstlen as i64;
+            let mut p = Packet::new();
+            if first { p.add_option(CoapOption::from(1), vec![7]); }
+            p.add_option(CoapOption::from(num), vec![0x55; vl as usize]);
+            for mode in [0u64, 2] { one(&p, mode, 0, emit); }
+            one(&p, 1, 70_000, emit);
+            let mut q = p.clone(); q.payload = vec![1]; one(&q, 2, 0, emit);
+        }
     } }
     // random messages x random limits
     for _ in 0..(if thorough { 100_000 } else { 5_000 }) {
